@@ -178,3 +178,58 @@ package vmm
 //@ func Unmap~callers(page mm.Page) (err *kernel.Error)
 //@   trusted
 //@   modifies pageTables
+
+// ---- temporary mapping, the shared zero frame, faults (C06) -----------------------------------
+// MapTemporary: one Map call for the fixed temporary page with Present|RW - or, once the zero
+// frame is protected, a refusal without any mapping call
+//@ func MapTemporary(frame mm.Frame) (page mm.Page, err *kernel.Error)
+//@   property C06 C04
+//@   requires uintptr(frame) < 0x10000000000
+//@   modifies mapCalls, mapLogPage, mapLogFrame, mapLogFlags, pageTables
+//@   ensures zero: protectReservedZeroedPage && frame == ReservedZeroedFrame ==> err == errAttemptToRWMapReservedFrame && mapCalls == old(mapCalls)
+//@   ensures call: !(protectReservedZeroedPage && frame == ReservedZeroedFrame) ==> mapCalls == old(mapCalls) + 1 && mapLogPage[old(mapCalls)] == mm.Page(tempMappingAddr >> 12) && mapLogFrame[old(mapCalls)] == frame && mapLogFlags[old(mapCalls)] == FlagPresent|FlagRW
+//@   ensures page: err == nil ==> page == mm.Page(tempMappingAddr >> 12)
+//@   ensures older: forall(k, uintptr, k < old(mapCalls) ==> mapLogPage[k] == old(mapLogPage)[k] && mapLogFrame[k] == old(mapLogFrame)[k] && mapLogFlags[k] == old(mapLogFlags)[k])
+//@   ensures errs: err != nil ==> vmmError(err)
+//@   at return: use vmmOwnErrs(0)
+
+// every fault other than a resolvable copy-on-write fault ends here: never returns
+//@ func nonRecoverablePageFault(faultAddress uintptr, regs *gate.Registers, err *kernel.Error)
+//@   property C06
+//@   noreturn
+//@   requires regs != nil
+//@   modifies kfmt.outLen, kfmt.out, elems(uint8)
+
+//@ func generalProtectionFaultHandler(regs *gate.Registers)
+//@   property C06
+//@   noreturn
+//@   requires regs != nil
+//@   modifies kfmt.outLen, kfmt.out, elems(uint8)
+
+// pageFaultHandler returns (resumes the faulting code) only for a present, read-only,
+// copy-on-write page; then the page's leaf entry points at the frame that was just allocated and
+// temporarily mapped, with RW set and CoW cleared and every other bit kept; the temporary page
+// received the 4096 bytes the faulting page showed; nothing else in memory changed; the page's
+// TLB entry was invalidated. cowEntry: the entry after resolution.
+//@ spec faultPageAddr() uintptr = uintptr(cpu.cr2) &^ 4095
+//@ spec cowEntry(e uint64, f mm.Frame) uint64 = (((e &^ 0x200) | 3) &^ 0x000ffffffffff000) | (uint64(f) << 12)
+//@ func pageFaultHandler(regs *gate.Registers)
+//@   property C06
+//@   inline walk
+//@   requires regs != nil
+//@   modifies mem, mm.allocState, mapCalls, mapLogPage, mapLogFrame, mapLogFlags, pageTables, cpu.flushes, cpu.flushLog, kfmt.outLen, kfmt.out, elems(uint8)
+//@   panics-unless old(mapped(faultPageAddr())) && old(mem64(pte3(faultPageAddr()))) & 2 == 0 && old(mem64(pte3(faultPageAddr()))) & 0x200 != 0
+//@   ensures tmp: mapCalls == old(mapCalls) + 1 && mapLogPage[old(mapCalls)] == mm.Page(tempMappingAddr >> 12) && mapLogFlags[old(mapCalls)] == FlagPresent|FlagRW
+//@   ensures entry: mem64(pte3(faultPageAddr())) == cowEntry(old(mem64(pte3(faultPageAddr()))), mapLogFrame[old(mapCalls)])
+//@   ensures copy: forall(i, uintptr, i < 4096 ==> mem8(tempMappingAddr + i) == old(mem8(faultPageAddr() + i)))
+//@   ensures rest: forall(a, uintptr, a - tempMappingAddr >= 4096 && a - pte3(faultPageAddr()) >= 8 ==> mem8(a) == old(mem8(a)))
+//@   ensures flush: cpu.flushes == old(cpu.flushes) + 1 && cpu.flushLog[old(cpu.flushes)] == faultPageAddr()
+
+// reserveZeroedFrame: on success the shared frame is the one just allocated, it was zero-filled
+// through the temporary mapping, and from then on it is protected
+//@ func reserveZeroedFrame() (err *kernel.Error)
+//@   property C06
+//@   requires !protectReservedZeroedPage
+//@   modifies ReservedZeroedFrame, protectReservedZeroedPage, mem, mm.allocState, mapCalls, mapLogPage, mapLogFrame, mapLogFlags, pageTables
+//@   ensures ok: err == nil ==> protectReservedZeroedPage && mapLogFrame[old(mapCalls)] == ReservedZeroedFrame && forall(i, uintptr, i < 4096 ==> mem8(tempMappingAddr + i) == 0)
+//@   ensures fail: err != nil ==> !protectReservedZeroedPage && mem == old(mem)
